@@ -58,6 +58,13 @@ fn if_bodies(src: &str) -> (String, Option<String>) {
         _ => ("<no if>".to_string(), None),
     }
 }
+/// (diagnostics of the always-parse entry point, ERROR nodes, ERROR tokens of its tree)
+fn error_elements(src: &str) -> (usize, usize, usize) {
+    let parse = oq3_syntax::SourceFile::parse(src);
+    let nodes = parse.syntax_node().descendants().filter(|n| n.kind() == oq3_syntax::SyntaxKind::ERROR).count();
+    let toks = parse.syntax_node().descendants_with_tokens().filter(|e| e.as_token().is_some() && e.kind() == oq3_syntax::SyntaxKind::ERROR).count();
+    (parse.errors().len(), nodes, toks)
+}
 fn lex_errors(src: &str) -> usize { oq3_parser::LexedStr::new(src).errors().count() }
 
 
@@ -242,6 +249,13 @@ fn main() {
         let src: &'static str = Box::leak(std::env::args().nth(2).unwrap_or_default().into_boxed_str());
         let (nsyn, r) = sema_outcome(src);
         println!("syntax-diagnostics={} analysis={:?}", nsyn, r);
+        return;
+    }
+    if arg == "--syn" {
+        // probe: parse one source text; print the diagnostics and the error nodes / tokens of the tree
+        let src: &'static str = Box::leak(std::env::args().nth(2).unwrap_or_default().into_boxed_str());
+        let (nerr, nodes, toks) = error_elements(src);
+        println!("lexical-diagnostics={} diagnostics={} error-nodes={} error-tokens={}", lex_errors(src), nerr, nodes, toks);
         return;
     }
     if arg == "--list" {
